@@ -80,6 +80,16 @@ func (w *W) Own() bool {
 	return w.idx%int64(w.Of) == int64(w.Shard)
 }
 
+// OwnKey is like Own but deals cases by a content hash, so that equal cases
+// always land on the same worker (which can then deduplicate them).
+func (w *W) OwnKey(h uint64) bool {
+	w.idx++
+	if w.idx <= w.Resume || w.Skip[w.idx] {
+		return false
+	}
+	return h%uint64(w.Of) == uint64(w.Shard)
+}
+
 // Idx is the current case index.
 func (w *W) Idx() int64 { return w.idx }
 
